@@ -1617,6 +1617,33 @@ std::string utf_dispatch(std::vector<std::string> const &t)
     return do_widen(parse_hex(t[1]));
   if (op == "nw" && t.size() == 2)
     return nw_line(parse_whex(t[1]));
+  if (op == "nwlong" && t.size() == 3)
+  {
+    // a long string (pattern repeated): many buffer growth steps; only lengths and a digest are printed
+    std::wstring const pat{parse_whex(t[1])};
+    unsigned long long const n{parse_int<unsigned long long>(t[2])};
+    if (pat.empty() || n == 0 || pat.size() * n > 200000)
+      throw bad_op{};
+    std::wstring ws;
+    for (unsigned long long i = 0; i < n; ++i)
+      ws += pat;
+    fcppt::optional_std_string const nr{do_narrow(ws)};
+    if (!nr.has_value())
+      return "n=none";
+    std::string const &bytes{nr.get_unsafe()};
+    std::string r{"n=some len=" + std::to_string(bytes.size()) + " h=" + vh::hex64(vh::fnv(vh::fnv_init, hex_of(bytes)))};
+    exact<char> const e{bytes};
+    try
+    {
+      std::wstring const back{fcppt::widen_locale(e.view(), utf8())};
+      r += " w=some len=" + std::to_string(back.size()) + " eq=" + b01(back == ws);
+    }
+    catch (std::runtime_error const &)
+    {
+      r += " w=exc";
+    }
+    return r;
+  }
   if (op == "nws" && t.size() == 3)
   {
     unsigned long long const lo{parse_int<unsigned long long>(t[1])};
@@ -1648,7 +1675,7 @@ std::string dispatch(std::vector<std::string> const &t)
     return text_ext(t);
   if (op == "bst" && t.size() == 2)
     return bst(t[1]);
-  if (op == "toy" || op == "toys" || op == "facet" || op == "cvt" || op == "narrow" || op == "widen" || op == "nw" || op == "nws" || op == "nwenv")
+  if (op == "toy" || op == "toys" || op == "facet" || op == "cvt" || op == "narrow" || op == "widen" || op == "nw" || op == "nws" || op == "nwenv" || op == "nwlong")
     return utf_dispatch(t);
   if (op == "native" && t.size() == 1)
     return std::endian::native == std::endian::little ? "little" : std::endian::native == std::endian::big ? "big" : "mixed";
